@@ -1006,6 +1006,13 @@ class NestedCommandsIrcProxy(ReplyIrcProxy):
                     allowedLength -= (len(suffix.encode())
                             if minisix.PY3 else len(suffix))
                     chunks = ircutils.wrap(s, allowedLength)
+                    if len(chunks) > maximumMores:
+                        # The truncation above is a cheap first cut: it counts
+                        # characters, while a chunk holds bytes (and less than
+                        # allowedLength of them).
+                        log.warning('Truncating to %s chunks from %s chunks.',
+                                    maximumMores, len(chunks))
+                        chunks = chunks[:maximumMores]
 
                     # Last messages to display at the beginning of the list
                     # (which is used like a stack)
